@@ -404,6 +404,8 @@ type Contract struct {
 	Extern   bool
 	Requires []*Clause
 	Ensures  []*Clause
+	// Preserves: clauses that are both (their copies are in Requires and Ensures)
+	Preserves []*Clause
 	Modifies []string
 	HasMod   bool
 	Allows   []*Clause
@@ -645,6 +647,14 @@ func addClause(c *Contract, cl *Clause) {
 		c.Requires = append(c.Requires, cl)
 	case "ensures":
 		c.Ensures = append(c.Ensures, cl)
+	case "preserves":
+		// preserves P = requires P + ensures P; in addition code that calls the function
+		// any number of times as a callback keeps P (see runCallbackWith)
+		rq, en := *cl, *cl
+		rq.Kind, en.Kind = "requires", "ensures"
+		c.Requires = append(c.Requires, &rq)
+		c.Ensures = append(c.Ensures, &en)
+		c.Preserves = append(c.Preserves, cl)
 	case "modifies":
 		c.HasMod = true
 		c.Modifies = append(c.Modifies, cl.Names...)
@@ -717,7 +727,7 @@ func parseClause(word, rest string) (*Clause, error) {
 		}
 	}
 	switch word {
-	case "requires", "ensures":
+	case "requires", "ensures", "preserves":
 		cl.Kind = word
 		label()
 		e, err := ParseSpecExpr(rest)
@@ -761,9 +771,15 @@ func parseClause(word, rest string) (*Clause, error) {
 		cl.Names = strings.Fields(strings.ReplaceAll(rest, ",", " "))
 	case "at":
 		// at <callee name>: assert [label] <expr>   -- checked in the caller at each call of callee
+		//    at <callee name>: set ghost.g = <expr>      -- ghost assignment just before the call (a
+		//    label for a value that later clauses of the same function refer to)
 		idx := strings.Index(rest, ": assert")
+		kw := ": assert"
+		if j := strings.Index(rest, ": set ghost."); idx < 0 && j >= 0 {
+			idx, kw = j, ": set"
+		}
 		if idx < 0 {
-			return nil, fmt.Errorf("at clause needs '<callee>: assert <expr>'")
+			return nil, fmt.Errorf("at clause needs '<callee>: assert <expr>' or '<callee>: set ghost.g = <expr>'")
 		}
 		cl.Kind = "at"
 		callee := strings.TrimSpace(rest[:idx])
@@ -775,8 +791,16 @@ func parseClause(word, rest string) (*Clause, error) {
 			}
 		}
 		cl.Names = []string{callee}
-		rest = strings.TrimSpace(rest[idx+len(": assert"):])
+		rest = strings.TrimSpace(rest[idx+len(kw):])
 		cl.Src = rest
+		if kw == ": set" {
+			eq := strings.Index(rest, "=")
+			if eq < 0 {
+				return nil, fmt.Errorf("at ...: set needs 'ghost.g = <expr>'")
+			}
+			cl.Handle = strings.TrimPrefix(strings.TrimSpace(rest[:eq]), "ghost.")
+			rest = strings.TrimSpace(rest[eq+1:])
+		}
 		label()
 		e, err := ParseSpecExpr(rest)
 		if err != nil {
